@@ -1,7 +1,8 @@
 """C08 — stream replacement reproduces the stream outside matches (DESIGN.md §5 C08)."""
 from rules.stream import RULES_C08 as RULES, STREAM_CONFIGS
 from rules.agree import r20_1
-RULES = list(RULES) + [('R20.1', r20_1)]
+from rules.agree import r04_1
+RULES = list(RULES) + [('R20.1', r20_1), ('R04.1', r04_1)]
 
 LEVEL = 'other'
 THOROUGH_CONFIGS = ['default', 'std', 'logging']
